@@ -56,3 +56,43 @@ def validate (c : EngCfg S) : EngState S → List Nat → Nat
 
 end EngCfg
 end LlgVerif
+
+/-! ### forced bytes (`parser.rs:1626-1689 forced_byte`, `:1372-1447 force_bytes`) -/
+namespace LlgVerif
+variable {S : Type}
+
+def byteOfNat (n : Nat) : Byte := UInt8.ofNat n
+
+/-- the 256 bytes in the order the probe visits them, starting at `b0` and wrapping around -/
+def probeOrder (b0 : Nat) : List Byte := (List.range 256).map (fun i => byteOfNat ((b0 + i) % 256))
+
+/-- the probing loop: `none` as soon as a second accepted byte is seen -/
+def probeLoop (r : Rec S) (s : S) : List Byte → Option Byte → Option Byte
+  | [], found => found
+  | b :: bs, found =>
+    if (r.step s b).isSome then
+      match found with
+      | some _ => none
+      | none => probeLoop r s bs (some b)
+    else probeLoop r s bs found
+
+/-- `forced_byte`: nothing is forced in an accepting state; a lexer hint `ForcedByte b` is trusted
+    (fast path, external derivre attribute); otherwise the exhaustive probe from `b0` -/
+def forcedByte (r : Rec S) (accepting : S → Bool) (s : S) (hint : Option Byte) (b0 : Nat) : Option Byte :=
+  if accepting s then none
+  else match hint with
+    | some b => some b
+    | none => probeLoop r s (probeOrder b0) none
+
+/-- `force_bytes`: keep pushing the forced byte while there is one (slow path only) -/
+def forceBytes (r : Rec S) (accepting : S → Bool) (b0 : Nat) : Nat → S → List Byte × S
+  | 0, s => ([], s)
+  | fuel + 1, s =>
+    match forcedByte r accepting s none b0 with
+    | none => ([], s)
+    | some b =>
+      match r.step s b with
+      | none => ([], s)
+      | some s' => let rest := forceBytes r accepting b0 fuel s'; (b :: rest.1, rest.2)
+
+end LlgVerif
